@@ -98,9 +98,12 @@ def body(I, case):
             continue
         groups.setdefault(g, []).extend(eqs)
     # ---- (input) the netlist's own, legal, configuration satisfies every equation (concrete evaluation of the real code)
+    input_legal = all(max(w / h, h / w) <= r and x - w / 2 >= 0 and y - h / 2 >= 0 and x + w / 2 <= W and y + h / 2 <= H
+                      for mod in mods.values() for (x, y, w, h) in [tuple(q[:4]) for q in mod['rectangles']])
     for g, eqs in groups.items():
         for e in eqs:
-            I.prove(f'input-configuration-satisfies:{g}', bool(e.is_equation_met()))
+            if input_legal:  # "the input configuration of an already legal floorplan satisfies it"
+                I.prove(f'input-configuration-satisfies:{g}', bool(e.is_equation_met()))
     # ---- the original shapes, in model order (trunk first, then N, S, E, W branches as netlist_to_utils lists them)
     orig = []
     for mi, (trunk, Nb, Sb, Eb, Wb) in enumerate(ml):
